@@ -46,6 +46,7 @@ type receiver struct {
 	mu      sync.Mutex
 	docs    [][]byte // every POSTed body, in arrival order
 	records int      // bodies that carry a "Records" member
+	nconn   int
 }
 
 func newReceiver() (*receiver, error) {
@@ -65,6 +66,13 @@ func newReceiver() (*receiver, error) {
 		r.mu.Unlock()
 		w.WriteHeader(http.StatusOK) // empty body: the gateway never closes response bodies
 	})}
+	r.srv.ConnState = func(_ net.Conn, st http.ConnState) {
+		if st == http.StateNew {
+			r.mu.Lock()
+			r.nconn++
+			r.mu.Unlock()
+		}
+	}
 	go r.srv.Serve(ln)
 	return r, nil
 }
@@ -86,6 +94,70 @@ func (r *receiver) snapshot() [][]byte {
 }
 
 func (r *receiver) close() { r.srv.Close() }
+
+func (r *receiver) conns() int {
+	r.mu.Lock()
+	defer r.mu.Unlock()
+	return r.nconn
+}
+
+// stall monitor: how late does a 20 ms sleep of the harness process wake up (starvation of the harness itself)
+type stallMon struct {
+	mu      sync.Mutex
+	samples []stallSample
+}
+type stallSample struct {
+	at   time.Time
+	over time.Duration
+}
+
+var stalls = &stallMon{}
+var stallOnce sync.Once
+
+func (m *stallMon) start() {
+	stallOnce.Do(func() {
+		go func() {
+			for {
+				t0 := time.Now()
+				time.Sleep(20 * time.Millisecond)
+				if over := time.Since(t0) - 20*time.Millisecond; over > 100*time.Millisecond {
+					m.mu.Lock()
+					m.samples = append(m.samples, stallSample{time.Now(), over})
+					m.mu.Unlock()
+				}
+			}
+		}()
+	})
+}
+
+func (m *stallMon) maxSince(t time.Time) time.Duration {
+	m.mu.Lock()
+	defer m.mu.Unlock()
+	var mx time.Duration
+	for _, s := range m.samples {
+		if s.at.After(t) && s.over > mx {
+			mx = s.over
+		}
+	}
+	return mx
+}
+
+func (rd *round) gwLogLines() []string {
+	b, err := os.ReadFile(rd.env.GWs[0].LogPath)
+	if err != nil {
+		return nil
+	}
+	var out []string
+	for _, l := range strings.Split(string(b), "\n") {
+		if strings.Contains(l, "webhook") || strings.Contains(l, "event") {
+			out = append(out, trunc(l, 300))
+			if len(out) >= 12 {
+				break
+			}
+		}
+	}
+	return out
+}
 
 // ---- the record as the harness reads it (field names from the S3 event message structure) ----
 
@@ -247,11 +319,12 @@ type roundCfg struct {
 }
 
 type round struct {
-	c    *ev.Ctx
-	cfg  roundCfg
-	env  *fx.Env
-	rcv  *receiver
-	root *s3c.Client
+	started time.Time
+	c       *ev.Ctx
+	cfg     roundCfg
+	env     *fx.Env
+	rcv     *receiver
+	root    *s3c.Client
 }
 
 type worker struct {
@@ -662,13 +735,16 @@ func keyForms(k string) []string {
 // explainBytes says what a corrupted path looks like: every byte either its own or, at the same
 // offset, a byte of another request path of this round (a reused buffer overwritten from offset 0).
 func explainBytes(got, own string, paths []string) string {
+	// a multi-byte character cut by the overwrite reaches the receiver as U+FFFD: one unknown byte
+	got = strings.ReplaceAll(got, "\uFFFD", "\xff")
 	if len(got) != len(own) {
 		return "length-changed"
 	}
+	eq := func(g, q byte) bool { return g == q || g == 0xff }
 	p, segs, other := 0, 0, false
 	for p < len(got) {
 		best, bestOwn := 0, true
-		for p+best < len(got) && got[p+best] == own[p+best] {
+		for p+best < len(got) && eq(got[p+best], own[p+best]) {
 			best++
 		}
 		for _, q := range paths {
@@ -676,7 +752,7 @@ func explainBytes(got, own string, paths []string) string {
 				continue
 			}
 			m := 0
-			for p+m < len(got) && p+m < len(q) && got[p+m] == q[p+m] {
+			for p+m < len(got) && p+m < len(q) && eq(got[p+m], q[p+m]) {
 				m++
 			}
 			if m > best {
@@ -956,9 +1032,34 @@ func (rd *round) judge(workers []*worker, docs [][]byte) judgeStats {
 			viol("unexpected:no-matching-request:"+short(o.rec.EventName), map[string]any{"last_request_on_key": r, "event": json.RawMessage(o.raw)})
 		}
 	}
+	// records still outstanding: a delivery that failed between the gateway and the harness receiver (the gateway
+	// logs it) or a starved harness process is a transport problem, not a verdict
+	var missing []*expEvent
 	for _, x := range exps {
 		if x.matched == 0 && !x.Optional {
-			viol("missing:"+x.Kind, map[string]any{"expected": x, "received_records": st.received})
+			missing = append(missing, x)
+		}
+	}
+	if len(missing) > 0 {
+		logLines := rd.gwLogLines()
+		fails := 0
+		for _, l := range logLines {
+			if strings.Contains(l, "failed to send webhook event") {
+				fails++
+			}
+		}
+		stall := stalls.maxSince(rd.started)
+		switch {
+		case fails > 0:
+			c.Inconclusive(fmt.Sprintf("%d record(s) outstanding, but the gateway logged delivery errors towards the harness receiver (transport)", len(missing)))
+			c.Observe("gateway log: " + trunc(logLines[0], 200))
+		case stall > time.Second:
+			c.Inconclusive(fmt.Sprintf("%d record(s) outstanding, but the harness process was starved (a 20 ms sleep overslept by %d ms)", len(missing), stall.Milliseconds()))
+		default:
+			for _, x := range missing {
+				viol("missing:"+x.Kind, map[string]any{"expected": x, "received_records": st.received, "gateway_log": logLines,
+					"harness_stall_ms": stall.Milliseconds(), "receiver_connections": rd.rcv.conns()})
+			}
 		}
 	}
 	return st
@@ -1029,7 +1130,7 @@ func runRound(c *ev.Ctx, cfg roundCfg, slots []slot) {
 		return
 	}
 	defer env.Close()
-	rd := &round{c: c, cfg: cfg, env: env, rcv: rcv, root: env.Client(0)}
+	rd := &round{c: c, cfg: cfg, env: env, rcv: rcv, root: env.Client(0), started: time.Now()}
 	if r := env.CreateUser(userAK, userSK, "user", 0, 0); !r.OK() {
 		c.Inconclusive("create user: " + r.String())
 		return
@@ -1179,7 +1280,11 @@ func raceSig(report string) (string, bool) {
 		}
 	}
 	sort.SliceStable(tops, func(i, j int) bool {
-		return !strings.HasPrefix(tops[i], "dep:") && strings.HasPrefix(tops[j], "dep:")
+		di, dj := strings.HasPrefix(tops[i], "dep:"), strings.HasPrefix(tops[j], "dep:")
+		if di != dj {
+			return dj
+		}
+		return tops[i] < tops[j]
 	})
 	return strings.ReplaceAll(strings.Join(tops, "<->"), " ", ""), inV
 }
@@ -1230,6 +1335,7 @@ func Run(c *ev.Ctx) int {
 	c.Assume("batch delete may be named s3:ObjectRemoved:DeleteObjects (gateway's documented custom type) or s3:ObjectRemoved:Delete; where a filter separates the two the record is accepted but not demanded")
 	c.Assume("size is demanded only where the request carries it (put); an absent (null / 0) size, eTag or versionId is an observation, a present but different one a violation")
 
+	stalls.start()
 	fixed := fixedFilters()
 	nRounds := c.Pick(10, 180)
 	scen := c.Pick(5, 10)
